@@ -18,7 +18,16 @@ Families
              reuses ancillas, also inside keys where both pairs are already replaced), constraints with few slack bits
   variants   scenarios: a base model with constraints; variants derived by copy() / the constructor / + 0 / * 1 / - 0 /
              + 3 / 2 * H; further constraints, mostly of a kind already recorded, added to base and variants in
-             interleaved order; every model of the scenario is checked in full against its own history
+             interleaved order (and maintenance calls on any of them); every model of the scenario is checked in full
+             against its own history
+  history    ONE constrained model object with maintenance calls between (and around) its 2..3 constraints: refresh(),
+             copy(), create_from_info(get_info(H)), set_mapping / set_reverse_mapping with a permutation, H *= 1, H += 0,
+             H.subs({}), type(H)(H); most constraints introduce slack ancillas.  The model reads a maintenance call as the
+             identity (state after = state before; the correspondence compares the state after every call); a fixed grid
+             runs every maintenance call x both kinds between two slack-introducing constraints on every seed
+  bounds     every documented form of the `bounds` keyword — absent, (None, None), (lo, hi) exact or loose, (lo, None),
+             (None, hi) — on every relation and both kinds (fixed grid); the random families draw a form for every
+             comparison constraint as well (the given numbers are valid bounds, from the truth table of the polynomial)
 
 Correspondence (model = lean/Qv/Model/Workflow.lean through op "wf", plus ops "c04sol", "cons", "c04conv"):
   build      PCBO: the state after PCBO(objective) and after every constraint call (terms, num_ancillas, recorded
@@ -46,7 +55,11 @@ RULE = ("objective: 2..5 terms of degree <= 3 over n in 2..4 variables (every va
         "log_trick on/off) and for PCBO logical (16 methods, label and nested-gate operands); weights = (max f - min f) + "
         "{1/4,1/2,1,3} (family big) or {1/4,1/2,1} (family small); PCBO and PCSO; 4 label realisations; forms: the model "
         "itself, to_pubo, to_puso, to_qubo, to_quso (total variables <= 16, larger forms are counted as skipped). "
-        "family deep: n = 5..6, objective terms of degree 3..5 sharing two disjoint pairs (reused reduction ancillas), few slack bits, forms up to 16 variables; family variants: scenarios of a base model and up to two models derived by copy() / constructor / +0 / *1 / -0 / +3 / 2*H with further, mostly same-kind, constraints added to all of them in interleaved order, every model checked in full. "
+        "family deep: n = 5..6, objective terms of degree 3..5 sharing two disjoint pairs (reused reduction ancillas), few slack bits, forms up to 16 variables; family variants: scenarios of a base model and up to two models derived by copy() / constructor / +0 / *1 / -0 / +3 / 2*H with further, mostly same-kind, constraints added to all of them in interleaved order, every model checked in full; "
+        "family history: one object, maintenance calls (refresh, copy, get_info/create_from_info, set_mapping permutation, *= 1, "
+        "+= 0, subs({}), constructor) between 2..3 mostly slack-introducing constraints; every comparison constraint draws one "
+        "of the documented forms of bounds (absent, (None,None), (lo,hi) exact/loose, (lo,None), (None,hi)); fixed grids: "
+        "8 maintenance calls x 2 kinds x 2 relation pairs, 6 bounds forms x 6 relations x 2 kinds. "
         "non-trivial = at least one constraint is violated by some assignment and the model has >= 1 penalty term; "
         "distinct = distinct case JSON")
 ASSUMPTIONS = ["integer-valued constraint polynomials; coefficients int / Fraction (PCSO conversions divide by 2: dyadic floats, exact)",
@@ -108,12 +121,17 @@ def con_holds(st, x):
 def domain(spin):
     return (1, -1) if spin else (0, 1)
 
+def cons_steps(case_or_steps):
+    """the constraint calls of a history (maintenance calls — refresh, copy, ... — constrain nothing)"""
+    steps = case_or_steps["steps"] if isinstance(case_or_steps, dict) else case_or_steps
+    return [st for st in steps if st["t"] != "maint"]
+
 def semantics(case):
     """f table, feasibility table over all assignments of the user variables (from the description only)"""
     n, spin = case["n"], case["kind"] == "PCSO"
     xs = list(itertools.product(domain(spin), repeat=n))
     f = {x: poly_value(case["obj"], x) for x in xs}
-    feas = {x: all(con_holds(st, x) for st in case["steps"]) for x in xs}
+    feas = {x: all(con_holds(st, x) for st in cons_steps(case)) for x in xs}
     return xs, f, feas
 
 # ------------------------------------------------------------------ generation
@@ -145,7 +163,35 @@ def gen_cmp(rng, n, spin):
         P.append([list(k), rng.choice(["-2", "-1", "1", "1", "2"])])
     if rng.random() < 0.8:
         P.append([[], str(rng.choice([-3, -2, -1, 1, 2]))])
-    return {"t": "cmp", "rel": rng.choice(RELS), "P": P, "lt": rng.random() < 0.5, "lo": None, "hi": None, "sup": False}
+    st = {"t": "cmp", "rel": rng.choice(RELS), "P": P, "lt": rng.random() < 0.5, "lo": None, "hi": None, "sup": False}
+    return set_bounds(rng, st, n, spin)
+
+BMS = ["none", "nonenone", "exact", "loose", "left", "right"]
+
+def set_bounds(rng, st, n, spin, bm=None):
+    """every documented form of the `bounds` keyword: absent, (None, None), (lo, hi), (lo, None), (None, hi); the given
+    numbers are valid bounds of P on the model's domain (exact, or loose by 0 / 1/2 / 1 / 2), from the truth table of P"""
+    bm = bm or (rng.choice(BMS[1:]) if rng.random() < 0.6 else "none")
+    nn = max([n] + [i + 1 for k, _ in st["P"] for i in k])
+    vals = [poly_value(st["P"], x) for x in itertools.product(domain(spin), repeat=nn)]
+    lo, hi = min(vals), max(vals)
+    if bm in ("loose", "left", "right") and rng.random() < 0.6:
+        lo -= rng.choice([0, Fraction(1, 2), 1, 2]); hi += rng.choice([0, Fraction(1, 2), 1, 2])
+    st["bm"] = bm
+    st["lo"] = fs(lo) if bm in ("exact", "loose", "left") else None
+    st["hi"] = fs(hi) if bm in ("exact", "loose", "right") else None
+    return st
+
+MAINT = ["refresh", "copy", "info", "relabel", "imul1", "subs", "iadd0", "ctor"]
+
+def gen_maint(rng, op=None):
+    """a call that documents itself as not changing the model: refresh(), copy(), create_from_info(get_info(H)),
+    set_mapping / set_reverse_mapping with a permutation of the current mapping, H *= 1, H.subs({}), H += 0, type(H)(H)"""
+    op = op or rng.choice(MAINT)
+    st = {"t": "maint", "op": op}
+    if op == "relabel":
+        st["perm"] = [rng.randrange(100) for _ in range(6)]; st["reverse"] = rng.random() < 0.5
+    return st
 
 def gen_logic(rng, n):
     def operand(depth):
@@ -206,13 +252,14 @@ def gen_deep(rng):
                     {"rel": "ne", "P": [[[a], "1"], [[b], "1"], [[], "-1"]]},
                     {"rel": "lt", "P": [[[a], "1"], [[b], "1"], [[], "-2"]]},
                     {"rel": "le", "P": [[[a], "2"], [[b], "1"], [[], "-2"]]}])
-                steps.append(dict({"t": "cmp", "lt": rng.random() < 0.5, "lo": None, "hi": None, "sup": False}, **tmpl))
+                steps.append(set_bounds(rng, dict({"t": "cmp", "lt": rng.random() < 0.5, "lo": None, "hi": None,
+                                                   "sup": False}, **tmpl), n, spin))
         case = {"family": "deep", "kind": kind, "n": n, "obj": obj, "steps": steps, "labels": rng.choice(Labels.STYLES_X)}
         xs, f, feas = semantics(case)
         if not any(feas.values()):
             continue
         R = max(f.values()) - min(f.values())
-        for st in steps:
+        for st in cons_steps(steps):
             st["lam"] = fs(R + rng.choice([Fraction(1, 2), Fraction(1), Fraction(3)]))
         case["big"] = True
         if model_size(case) > MAXH:
@@ -227,7 +274,7 @@ def model_size(case):
     H = getattr(qv, case["kind"])({L.key(k): num_of(v) for k, v in case["obj"]})
     try:
         for st in case["steps"]:
-            call_step(H, st, L)
+            H, _ = apply_step(H, st, L)
     except Exception:
         return 0
     return H.num_binary_variables
@@ -249,24 +296,112 @@ def gen_case(rng, family):
             extra = rng.choice([
                 {"rel": "le", "P": [[[n - 1], "1"], [[], "-3"]]}, {"rel": "ge", "P": [[[n - 1], "1"], [[0], "1"], [[], "2"]]},
                 {"rel": "lt", "P": [[[n - 1], "1"], [[], "-2"]]}, {"rel": "ne", "P": [[[n - 1], "2"], [[], "3"]]}])
-            steps.insert(rng.randint(0, len(steps)), dict({"t": "cmp", "lt": rng.random() < 0.5, "lo": None, "hi": None,
-                                                           "sup": False}, **extra))
+            steps.insert(rng.randint(0, len(steps)), set_bounds(rng, dict({"t": "cmp", "lt": rng.random() < 0.5, "lo": None,
+                                                                           "hi": None, "sup": False}, **extra), n, spin))
         case = {"family": family, "kind": kind, "n": n, "obj": obj, "steps": steps,
                 "labels": rng.choice(Labels.STYLES_X)}
         xs, f, feas = semantics(case)
         if not any(feas.values()):
             continue
         R = max(f.values()) - min(f.values())
-        for st in steps:
+        for st in cons_steps(steps):
             if family == "small":
                 st["lam"] = fs(rng.choice([Fraction(1, 4), Fraction(1, 2), Fraction(1)]))
             else:
                 st["lam"] = fs(R + rng.choice([Fraction(1, 4), Fraction(1, 2), Fraction(1), Fraction(3)]))
-        case["big"] = all(Fraction(st["lam"]) > R for st in steps)
+        case["big"] = all(Fraction(st["lam"]) > R for st in cons_steps(steps))
         if model_size(case) > MAXH:
             continue                      # the brute force over variables and ancillas must stay small
         return case
     raise Infra("generator found no feasible workflow")
+
+def gen_slack(rng, n, spin):
+    """an inequality / disequality that needs slack ancillas: sum of 2..3 variables with weights 1..2 against a threshold
+    strictly inside its range"""
+    vs = rng.sample(range(n), rng.choice([2, 3]) if n >= 3 else 2)
+    cs = [rng.choice([1, 1, 2]) for _ in vs]
+    C = sum(cs)
+    k = rng.randint(-C + 1, C - 1) if spin else rng.randint(1, C - 1)
+    sign = rng.choice([1, -1])
+    P = [[[v], str(sign * c)] for v, c in zip(vs, cs)] + ([[[], str(-sign * k)]] if k else [])
+    if rng.random() < 0.3:
+        rng.shuffle(P)
+    st = {"t": "cmp", "rel": rng.choice(["le", "le", "ge", "ge", "lt", "gt", "ne"]), "P": P, "lt": rng.random() < 0.5,
+          "lo": None, "hi": None, "sup": False}
+    return set_bounds(rng, st, n, spin)
+
+def finish_case(rng, case, big=True):
+    """feasibility, weights (every weight > max f - min f when `big`), size limit; None when the case is rejected"""
+    xs, f, feas = semantics(case)
+    if not any(feas.values()):
+        return None
+    R = max(f.values()) - min(f.values())
+    for st in cons_steps(case):
+        st["lam"] = fs(R + rng.choice([Fraction(1, 4), Fraction(1, 2), Fraction(1), Fraction(3)])) if big else \
+            fs(rng.choice([Fraction(1, 4), Fraction(1, 2), Fraction(1)]))
+    case["big"] = all(Fraction(st["lam"]) > R for st in cons_steps(case))
+    if model_size(case) > MAXH:
+        return None
+    return case
+
+def gen_history(rng):
+    """one constrained model object with maintenance calls between (and around) its constraints; most constraints introduce
+    slack ancillas, so that a maintenance call that loses the ancilla counter or the recorded constraints shows"""
+    for _ in range(300):
+        kind = "PCBO" if rng.random() < 0.6 else "PCSO"
+        spin = kind == "PCSO"
+        n = rng.choice([3, 3, 4])
+        steps = [gen_maint(rng)] if rng.random() < 0.25 else []
+        for i in range(rng.choice([2, 2, 2, 3])):
+            if i:
+                steps += [gen_maint(rng) for _ in range(rng.choice([1, 1, 1, 2]))]
+            r = rng.random()
+            steps.append(gen_slack(rng, n, spin) if r < 0.7 else gen_logic(rng, n) if (not spin and r < 0.8)
+                         else gen_cmp(rng, n, spin))
+        if rng.random() < 0.4:
+            steps.append(gen_maint(rng))
+        case = finish_case(rng, {"family": "history", "kind": kind, "n": n, "obj": gen_obj(rng, n), "steps": steps,
+                                 "labels": rng.choice(Labels.STYLES_X)}, big=rng.random() < 0.85)
+        if case:
+            return case
+    raise Infra("generator found no feasible history")
+
+def fixed_histories():
+    """every maintenance call between two slack-introducing constraints, and every form of `bounds` on every relation,
+    on fixed small models of both kinds (the same cases on every seed)"""
+    import random
+    rng = random.Random(8)
+    out = []
+    obj = [[[0], "-2"], [[1], "-2"], [[2], "1"], [[3], "1"], [[0, 2], "1"]]
+    for kind in ("PCBO", "PCSO"):
+        spin = kind == "PCSO"
+        for op in MAINT:
+            for rels in (("le", "le"), ("ge", "lt" if spin else "ne")):
+                Pa = [[[0], "1"], [[1], "1"]] if spin else [[[0], "1"], [[1], "1"], [[2], "1"], [[], "-2"]]
+                Pb = [[[2], "1"], [[3], "1"], [[], "1"]] if spin else [[[2], "1"], [[3], "1"], [[], "-1"]]
+                if rels[1] in ("le", "lt"):
+                    Pb = [[[2], "1"], [[3], "1"]] if spin else [[[1], "1"], [[2], "1"], [[3], "1"], [[], "-2"]]
+                a = {"t": "cmp", "rel": rels[0], "P": Pa, "lt": op in MAINT[::2], "lo": None, "hi": None, "sup": False}
+                b = {"t": "cmp", "rel": rels[1], "P": Pb, "lt": op in MAINT[1::2], "lo": None, "hi": None, "sup": False}
+                if rels[0] == "ge":
+                    a["P"] = [[k, fs(-Fraction(v))] for k, v in a["P"]]
+                case = finish_case(rng, {"family": "history", "kind": kind, "n": 4, "obj": obj, "labels": "str",
+                                         "steps": [set_bounds(rng, a, 4, spin, "none"), gen_maint(rng, op),
+                                                   set_bounds(rng, b, 4, spin, "none")]})
+                if case:
+                    out.append(case)
+        obj3 = [[[0], "-1"], [[1], "-1"], [[2], "-1"], [[0, 1], "1/2"]]
+        for bm in BMS:
+            for rel in RELS:
+                P = [[[0], "1"], [[2], "1"]] if spin else [[[0], "1"], [[1], "1"], [[2], "2"], [[], "-2"]]
+                if rel in ("ge", "gt"):
+                    P = [[k, fs(-Fraction(v))] for k, v in P]
+                st = set_bounds(rng, {"t": "cmp", "rel": rel, "P": P, "lt": bm in BMS[::2], "lo": None, "hi": None,
+                                      "sup": False}, 3, spin, bm)
+                case = finish_case(rng, {"family": "bounds", "kind": kind, "n": 3, "obj": obj3, "labels": "int", "steps": [st]})
+                if case:
+                    out.append(case)
+    return out
 
 # ------------------------------------------------------------------ implementation side
 
@@ -278,12 +413,59 @@ def call_step(H, st, L):
             kw = {"lam": num_of(st["lam"])}
             if st["rel"] != "eq":
                 kw["log_trick"] = st["lt"]
+            if st.get("lo") is not None or st.get("hi") is not None:
+                kw["bounds"] = (None if st["lo"] is None else num_of(st["lo"]), None if st["hi"] is None else num_of(st["hi"]))
+            elif st.get("bm") == "nonenone":
+                kw["bounds"] = (None, None)
             r = getattr(H, "add_constraint_%s_zero" % st["rel"])(d, **kw)
         else:
             ops = [c06.build_operand(o, L) for o in st["ops"]]
             r = getattr(H, "add_constraint_" + ("eq_" if st["eq"] else "") + st["g"])(*ops, lam=num_of(st["lam"]))
     ws = ["unsat" if "cannot" in str(x.message) else "always" if "always" in str(x.message) else "other" for x in w]
     return r, ws
+
+class NotSelf(Exception):
+    pass
+
+def apply_step(H, st, L):
+    """one step of a history on the real object: a constraint call (must return self) or a maintenance call.
+    Returns (the object the history continues on, warnings)."""
+    if st["t"] != "maint":
+        r, ws = call_step(H, st, L)
+        if r is not H:
+            raise NotSelf("add_constraint did not return self")
+        return H, ws
+    import qubovert as qv
+    op = st["op"]
+    with warnings.catch_warnings():
+        warnings.simplefilter("ignore")
+        if op == "refresh":
+            if H.refresh() is not None:
+                raise NotSelf("refresh() returned something")
+        elif op == "copy":
+            H = H.copy()
+        elif op == "info":
+            H = qv.utils.create_from_info(qv.utils.get_info(H))
+        elif op == "relabel":
+            mp = H.mapping
+            labs, vals = list(mp), list(mp.values())
+            order = sorted(range(len(vals)), key=lambda t: (st["perm"][t % len(st["perm"])], t))
+            new = {labs[t]: vals[order[t]] for t in range(len(labs))}
+            if st["reverse"]:
+                H.set_reverse_mapping({v: k for k, v in new.items()})
+            else:
+                H.set_mapping(new)
+        elif op == "imul1":
+            H *= 1
+        elif op == "iadd0":
+            H += 0
+        elif op == "subs":
+            H = H.subs({})
+        elif op == "ctor":
+            H = type(H)(H)
+        else:
+            raise ValueError(op)
+    return H, []
 
 def cons_canon(H, L):
     return {r: [canon_terms(p, L) for p in ps] for r, ps in H._constraints.items()}
@@ -309,16 +491,20 @@ def run_impl(case):
     warns, states = [], []
     info = {"H": H, "L": L, "states": states}
     states.append(state_of(H, L, n, warns, spin))
+    kind = type(H)
     for st in case["steps"]:
         try:
-            r, ws = call_step(H, st, L)
+            H, ws = apply_step(H, st, L)
+            if type(H) is not kind:
+                raise NotSelf("%s turned the model into a %s" % (st.get("op"), type(H).__name__))
+        except NotSelf as e:
+            info["build_error"] = str(e)
+            return info
         except Exception as e:
             states.append({"err": exc_name(e)})
             info["build_error"] = exc_name(e) + ": " + str(e)[:100]
             return info
-        if r is not H:
-            info["build_error"] = "add_constraint did not return self"
-            return info
+        info["H"] = H
         warns += ws
         states.append(state_of(H, L, n, warns, spin))
     collect(H, L, info)
@@ -382,7 +568,7 @@ def derive_desc(obj, steps, op):
         obj = [[list(k), fs(v)] for k, v in d.items() if v != 0]
     elif op == "*2":
         obj = [[k, fs(2 * Fraction(v))] for k, v in obj]
-        for st in steps:
+        for st in cons_steps(steps):
             st["lam"] = fs(2 * Fraction(st["lam"]))       # every penalty is linear in its weight
     return obj, steps
 
@@ -397,6 +583,10 @@ def gen_scenario(rng, family="variants"):
         script = [["add", 0, st] for st in base["steps"]]
         rels = [st["rel"] for st in base["steps"] if st["t"] == "cmp"]
         for _ in range(rng.choice([2, 3, 3, 4, 5])):
+            if rng.random() < 0.2:
+                tgt = rng.randrange(len(models)); st = gen_maint(rng)
+                models[tgt]["steps"].append(st)
+                script.append(["add", tgt, st])
             if len(models) < 3 and (len(models) == 1 or rng.random() < 0.35):
                 par = rng.randrange(len(models)); op = rng.choice(DERIVE)
                 o, stp = derive_desc(models[par]["obj"], models[par]["steps"], op)
@@ -457,9 +647,9 @@ def run_scenario(case):
     try:
         for ev in case["script"]:
             if ev[0] == "add":
-                r, _ = call_step(objs[ev[1]], ev[2], L)
-                if r is not objs[ev[1]]:
-                    err = "add_constraint did not return self"
+                objs[ev[1]], _ = apply_step(objs[ev[1]], ev[2], L)
+                if type(objs[ev[1]]) is not type(objs[0]):
+                    err = "%s turned the model into a %s" % (ev[2].get("op"), type(objs[ev[1]]).__name__)
             else:
                 objs.append(derive(objs[ev[1]], ev[2]))
                 if type(objs[-1]) is not type(objs[0]):
@@ -630,7 +820,7 @@ def wf_line(case, info):
     spin = case["kind"] == "PCSO"
     line = {"op": "wf", "spin": spin, "n": case["n"]}
     line["obj"] = case["obj"]
-    line["steps"] = [dict(st, raw=True) if st["t"] == "cmp" else st for st in case["steps"]]
+    line["steps"] = [dict(st, raw=True) if st["t"] == "cmp" else st for st in cons_steps(case)]
     if "book" in info:
         line["book"] = info["book"]
         line["mapping"] = info["mapping"]
@@ -703,6 +893,15 @@ def compare(ctx, case, info, m):
         for s in m["steps"]:
             ms.append({"err": s["err"]} if "err" in s else
                       {"terms": s["terms"], "anc": s["anc"], "cons": group_cons(s["cons"]), "warns": s["warns"], "valid": s["valid"]})
+        # a maintenance call is the identity of the model: the state after it is the state before it
+        full, j = [ms[0]] if ms else [], 1
+        for st in case["steps"]:
+            if st["t"] == "maint":
+                if full and "err" not in full[-1]:
+                    full.append(full[-1])
+            elif j < len(ms):
+                full.append(ms[j]); j += 1
+        ms = full
         if info["states"] != ms:
             ctx.diff("build", case, info["states"], ms)
     else:
@@ -761,7 +960,7 @@ def convert_cases(case, info, rng):
 
 def pcso_penalty_lines(case):
     """PCSO: the boolean images puso_to_pubo(PUSO(P_i)) of the constraint polynomials (round 1)"""
-    return [{"op": "c04conv", "f": "puso_to_pubo", "kind": "PUSO", "p": st["P"]} for st in case["steps"]]
+    return [{"op": "c04conv", "f": "puso_to_pubo", "kind": "PUSO", "p": st["P"]} for st in cons_steps(case)]
 
 def poly_add(a, b, sign=1):
     out = dict(a)
@@ -804,10 +1003,11 @@ def process(ctx, cases):
     pos, r2_lines = 0, []
     for c, _ in pc:
         seq = []
-        for st in c["steps"]:
+        for st in cons_steps(c):
             img = r1[pos]; pos += 1
+            # PCSO hands `bounds` unchanged to the PCBO constraint on the boolean image (same function values)
             seq.append({"rel": st["rel"], "P": img.get("terms", []), "raw": True, "lam": st["lam"], "lt": st["lt"],
-                        "lo": None, "hi": None, "sup": False})
+                        "lo": st.get("lo"), "hi": st.get("hi"), "sup": False})
         r2_lines.append({"op": "cons", "seq": seq})
     r2 = common.run_driver(r2_lines)
     r3 = common.run_driver([{"op": "c04conv", "f": "pubo_to_puso", "kind": "PCBO", "p": m.get("terms", [])} for m in r2])
@@ -830,10 +1030,14 @@ def process(ctx, cases):
         nontrivial = (not all(feas.values())) and len(last.get("terms", [])) > len(c["obj"])
         ctx.case({k: v for k, v in c.items() if k != "report"}, nontrivial)
         ctx.traces += 1
-        ctx.count("family:" + c["family"]); ctx.count("kind:" + c["kind"]); ctx.count("constraints:%d" % len(c["steps"]))
+        ctx.count("family:" + c["family"]); ctx.count("kind:" + c["kind"]); ctx.count("constraints:%d" % len(cons_steps(c)))
         for st in c["steps"]:
+            if st["t"] == "maint":
+                ctx.count("maint:" + st["op"]); continue
             ctx.count("step:" + (st["rel"] + (":log" if st["lt"] else ":unary") if st["t"] == "cmp"
                                  else ("eq_" if st["eq"] else "") + st["g"]))
+            if st["t"] == "cmp":
+                ctx.count("bounds:" + st.get("bm", "none"))
         if "book" in info:
             ctx.count("ancillas:%d" % info["H"].num_ancillas)
         nd = len(ctx.diffs)
@@ -854,7 +1058,7 @@ def finalize(case):
     """recompute the `big` flag (all weights > max f - min f) from the truth table"""
     xs, f, feas = semantics(case)
     R = max(f.values()) - min(f.values())
-    case["big"] = all(Fraction(st["lam"]) > R for st in case["steps"])
+    case["big"] = all(Fraction(st["lam"]) > R for st in cons_steps(case))
     return case
 
 FIXED = [
@@ -884,6 +1088,8 @@ def check(ctx):
     cases += [gen_case(rng, "uncovered") for _ in range(int(nq * 0.05))]
     cases += [gen_deep(rng) for _ in range(ctx.scale(60, 600))]
     cases += [gen_scenario(rng) for _ in range(ctx.scale(50, 500))]
+    cases += fixed_histories()
+    cases += [gen_history(rng) for _ in range(ctx.scale(100, 1000))]
     process(ctx, cases)
     if ctx.diffs and not ctx.violations:
         search(ctx)
@@ -896,7 +1102,7 @@ def search(ctx):
         c = d["case"]
         if not isinstance(c, dict) or "steps" not in c:
             continue
-        for st in c["steps"]:
+        for st in cons_steps(c):
             for style in Labels.STYLES:
                 v = dict(c, steps=[st], labels=style)
                 key = json.dumps(v, sort_keys=True)
@@ -908,7 +1114,7 @@ def search(ctx):
         if not any(feas.values()):
             continue
         R = max(f.values()) - min(f.values())
-        c["big"] = all(Fraction(st["lam"]) > R for st in c["steps"])
+        c["big"] = all(Fraction(st["lam"]) > R for st in cons_steps(c))
         info = run_impl(c)
         bad, tag = oracle(c, info, ctx)
         if bad:
